@@ -54,19 +54,40 @@ func Describe(v any) any {
 	return out
 }
 
-// BuildValue decodes raw into a new value of type t. Struct fields of type io.Reader take a
-// JSON string; func(*multipart.Writer) error types take {"field": "value", ...}.
+// needsSpecial: does a value of this type contain a reader or a function somewhere?
+func needsSpecial(t reflect.Type, depth int) bool {
+	if depth > 6 {
+		return false
+	}
+	switch {
+	case t == readerType, t.Kind() == reflect.Func:
+		return true
+	case t.Kind() == reflect.Struct:
+		for i := 0; i < t.NumField(); i++ {
+			if needsSpecial(t.Field(i).Type, depth+1) {
+				return true
+			}
+		}
+	}
+	return false
+}
+
+// BuildValue decodes raw into a new value of type t. io.Reader values take a JSON string;
+// func(*multipart.Writer) error values take {"field": "value", ...}; structs containing such
+// values are filled field by field (embedded structs share the enclosing object).
 func BuildValue(t reflect.Type, raw json.RawMessage) (reflect.Value, error) {
-	if t.Kind() == reflect.Func {
+	v := reflect.New(t).Elem()
+	switch {
+	case t.Kind() == reflect.Func:
 		var fields map[string]string
 		if err := json.Unmarshal(raw, &fields); err != nil {
-			return reflect.Value{}, err
+			return v, err
 		}
 		fn := reflect.MakeFunc(t, func(args []reflect.Value) []reflect.Value {
 			w := args[0].Interface().(*multipart.Writer)
 			var err error
-			for k, v := range fields {
-				if e := w.WriteField(k, v); e != nil {
+			for k, x := range fields {
+				if e := w.WriteField(k, x); e != nil {
 					err = e
 				}
 			}
@@ -77,48 +98,34 @@ func BuildValue(t reflect.Type, raw json.RawMessage) (reflect.Value, error) {
 			return []reflect.Value{ev}
 		})
 		return fn, nil
-	}
-	v := reflect.New(t).Elem()
-	if t.Kind() == reflect.Struct {
-		hasReader := false
-		for i := 0; i < t.NumField(); i++ {
-			if t.Field(i).Type == readerType {
-				hasReader = true
-			}
-		}
-		if hasReader {
-			var m map[string]json.RawMessage
-			if err := json.Unmarshal(raw, &m); err != nil {
-				return v, err
-			}
-			for i := 0; i < t.NumField(); i++ {
-				r, ok := m[t.Field(i).Name]
-				if !ok {
-					continue
-				}
-				if t.Field(i).Type == readerType {
-					var s string
-					if err := json.Unmarshal(r, &s); err != nil {
-						return v, err
-					}
-					v.Field(i).Set(reflect.ValueOf(strings.NewReader(s)))
-					continue
-				}
-				fv, err := BuildValue(t.Field(i).Type, r)
-				if err != nil {
-					return v, fmt.Errorf("field %s: %w", t.Field(i).Name, err)
-				}
-				v.Field(i).Set(fv)
-			}
-			return v, nil
-		}
-	}
-	if t == readerType {
+	case t == readerType:
 		var s string
 		if err := json.Unmarshal(raw, &s); err != nil {
 			return v, err
 		}
-		return reflect.ValueOf(strings.NewReader(s)), nil
+		v.Set(reflect.ValueOf(strings.NewReader(s)))
+		return v, nil
+	case t.Kind() == reflect.Struct && needsSpecial(t, 0):
+		var m map[string]json.RawMessage
+		if err := json.Unmarshal(raw, &m); err != nil {
+			return v, err
+		}
+		for i := 0; i < t.NumField(); i++ {
+			f := t.Field(i)
+			r, ok := m[f.Name]
+			if !ok && f.Anonymous && f.Type.Kind() == reflect.Struct {
+				r, ok = raw, true // promoted fields
+			}
+			if !ok {
+				continue
+			}
+			fv, err := BuildValue(f.Type, r)
+			if err != nil {
+				return v, fmt.Errorf("field %s: %w", f.Name, err)
+			}
+			v.Field(i).Set(fv)
+		}
+		return v, nil
 	}
 	if err := json.Unmarshal(raw, v.Addr().Interface()); err != nil {
 		return v, err
